@@ -75,7 +75,10 @@ ClVecs == {[k |-> "cl_long", doc |-> <<Hdr(<<50, 46, 48>>)>> \o Body(n, bl) \o <
             bodies |-> <<Body(n, bl), <<b(<<LF, SP, SP, 42, SP, 111, LF, LF>>)>> >>] : n \in {m \in Lengths : m > 4200}, bl \in BOOLEAN}
 
 ASSUME \A v \in ReadVecs : WellFormedSegs(v.doc)
+\* C11: the same documents clearsigned by k1 and read with the keyring {k1}: what is verified is what is then parsed
+SignedReadVecs == {[k |-> "read_long", doc |-> RenderDoc(m), expect |-> Expect(m), sign |-> "k1"] : m \in Models}
 ASSUME Emit(CASE Mode = "read" -> SetToSeq(ReadVecs)
+              [] Mode = "signed" -> SetToSeq(SignedReadVecs)
               [] Mode = "write" -> SetToSeq(WriteVecs)
               [] Mode = "struct" -> SetToSeq(StructVecs)
               [] Mode = "doc" -> SetToSeq(DocVecs)
